@@ -4,6 +4,7 @@ import BstreamVerif.Drv.Gates
 import BstreamVerif.Drv.Server
 import BstreamVerif.Drv.ForkableDrv
 import BstreamVerif.Drv.Files
+import BstreamVerif.Drv.IndexDrv
 /-
 bsmodel: reads the harness file (op / impl lines grouped in cases) on stdin, prints for every `op`
 line the model's answer (`model …`) and the monitor verdict on the implementation's answer.
@@ -27,6 +28,7 @@ def statefulCase (suite : String) (hdr : List String) (body : List (List String)
   | "server" => some (ServerDrv.handle hdr body)
   | "forkable" => some (ForkableDrv.handle hdr body)
   | "dbin" => some (FilesDrv.handleDbin hdr body)
+  | "index" => some (IndexDrv.handle hdr body)
   | _ => none
 
 def processCase (out : IO.FS.Stream) (hdr : List String) (body : Array (List String)) : IO Unit := do
